@@ -38,4 +38,149 @@ theorem run_flatMap {α} (g : α → List Evt) (out : α → List Model.Validate
   | cons x l ih => simp [List.flatMap_cons, run_append, h, ih]
 
 end Machine
+
+-- ------------------------------------------------------------------ the walk as prefix / children / suffix
+
+def enterSetEv (st : Stack) (ss : List Sel) : List Evt := match ss with | [] => [] | _ => [mk st (.enterSet ss)]
+def exitSetEv (st : Stack) (ss : List Sel) : List Evt := match ss with | [] => [] | _ => [mk st .exitSet]
+
+theorem walkSet_eq (S : VSchema) (st : Stack) (ss : List Sel) :
+    walkSet S {} st ss = enterSetEv st ss ++ walkSels S {} st ss ++ exitSetEv st ss := by
+  cases ss <;> simp [walkSet, enterSetEv, exitSetEv, walkSels]
+
+/-- the callbacks of a selection before its sub-selections -/
+def preEvents (S : VSchema) (st : Stack) : Sel → List Evt
+  | .field al n args ds ss _ =>
+    mk st .enterSel :: mk (fieldTy S st n :: st) (.enterField al n args ds ss) ::
+      (walkArgs S {} (fieldTy S st n :: st) (fieldDefs S st n) args ++ walkDirs S {} (fieldTy S st n :: st) ds
+        ++ enterSetEv (fieldTy S st n :: st) ss)
+  | .spread n ds _ =>
+    mk st .enterSel :: mk st (.enterSpread n ds) :: (walkDirs S {} st ds ++ [mk st .exitSpread, mk st .exitSel])
+  | .inline c ds ss _ =>
+    mk st .enterSel :: mk (inlineSt S st c) (.enterInline c ds ss) ::
+      (walkDirs S {} (inlineSt S st c) ds ++ enterSetEv (inlineSt S st c) ss)
+
+/-- the callbacks of a selection after its sub-selections -/
+def postEvents (S : VSchema) (st : Stack) : Sel → List Evt
+  | .field _ n _ _ ss _ => exitSetEv (fieldTy S st n :: st) ss ++ [mk (fieldTy S st n :: st) .exitField, mk st .exitSel]
+  | .spread _ _ _ => []
+  | .inline c _ ss _ => exitSetEv (inlineSt S st c) ss ++ [mk (inlineSt S st c) .exitInline, mk st .exitSel]
+
+/-- the stack under which the sub-selections of a selection are walked -/
+def childSt (S : VSchema) (st : Stack) : Sel → Stack
+  | .field _ n _ _ _ _ => fieldTy S st n :: st
+  | .spread _ _ _ => st
+  | .inline c _ _ _ => inlineSt S st c
+
+def childrenOf : Sel → List Sel
+  | .field _ _ _ _ ss _ => ss
+  | .spread _ _ _ => []
+  | .inline _ _ ss _ => ss
+
+theorem walkSel_eq (S : VSchema) (st : Stack) (s : Sel) :
+    walkSel S {} st s = preEvents S st s ++ walkSels S {} (childSt S st s) (childrenOf s) ++ postEvents S st s := by
+  cases s with
+  | field al n args ds ss p => rw [walkSel_field, walkSet_eq]; simp [preEvents, postEvents, childSt, childrenOf]
+  | spread n ds p => rw [walkSel_spread]; simp [preEvents, postEvents, childSt, childrenOf, walkSels]
+  | inline c ds ss p => rw [walkSel_inline, walkSet_eq]; simp [preEvents, postEvents, childSt, childrenOf]
+
+namespace Machine
+variable {σ : Type} (M : Machine σ)
+
+mutual
+/-- A stateful rule whose output on the prefix of every selection is independent of the state it
+    is entered with, and which is silent on suffixes, is a fold over the visited selections. -/
+theorem run_walkSel (S : VSchema) (out : Stack → Sel → List Model.Validate.Kind)
+    (hpre : ∀ s st sel, M.run s (preEvents S st sel) = out st sel)
+    (hpost : ∀ s st sel, M.run s (postEvents S st sel) = []) (s : σ) (st : Stack) :
+    (sel : Sel) → M.run s (walkSel S {} st sel) = (visitsSel S st sel).flatMap (fun v => out v.1 v.2)
+  | .field al n args ds ss p => by
+    rw [walkSel_eq, run_append, run_append, hpre, hpost]
+    simp only [childSt, childrenOf, visitsSel, List.flatMap_cons, List.append_nil]
+    rw [run_walkSels S out hpre hpost _ _ ss]
+  | .spread n ds p => by
+    rw [walkSel_eq, run_append, run_append, hpre, hpost]
+    simp [childSt, childrenOf, visitsSel, walkSels]
+  | .inline c ds ss p => by
+    rw [walkSel_eq, run_append, run_append, hpre, hpost]
+    simp only [childSt, childrenOf, visitsSel, List.flatMap_cons, List.append_nil]
+    rw [run_walkSels S out hpre hpost _ _ ss]
+theorem run_walkSels (S : VSchema) (out : Stack → Sel → List Model.Validate.Kind)
+    (hpre : ∀ s st sel, M.run s (preEvents S st sel) = out st sel)
+    (hpost : ∀ s st sel, M.run s (postEvents S st sel) = []) (s : σ) (st : Stack) :
+    (ss : List Sel) → M.run s (walkSels S {} st ss) = (visitsSels S st ss).flatMap (fun v => out v.1 v.2)
+  | [] => by simp [walkSels, visitsSels]
+  | x :: xs => by
+    simp only [walkSels, visitsSels, run_append, List.flatMap_append]
+    rw [run_walkSel S out hpre hpost _ _ x, run_walkSels S out hpre hpost _ _ xs]
+end
+
+end Machine
+
+
+-- ------------------------------------------------------------------ the document
+
+def fragPre (S : VSchema) (f : FragDef) : List Evt :=
+  mk (fragSt S f) (.enterFrag f) :: (walkDirs S {} (fragSt S f) f.dirs ++ enterSetEv (fragSt S f) f.sels)
+def fragPost (S : VSchema) (f : FragDef) : List Evt := exitSetEv (fragSt S f) f.sels ++ [mk (fragSt S f) (.exitFrag f)]
+
+theorem walkFrag_eq (S : VSchema) (f : FragDef) :
+    walkFrag S {} f = fragPre S f ++ walkSels S {} (fragSt S f) f.sels ++ fragPost S f := by
+  simp [walkFrag, walkSet_eq, fragPre, fragPost, fragSt]
+
+def varEvents (st : Stack) (vs : List VarDef) : List Evt := vs.flatMap (fun v => [mk st (.enterVar v), mk st (.exitVar v)])
+
+def opPre (S : VSchema) (o : OpDef) : List Evt :=
+  mk [] (.enterOp o) ::
+    (match rootOf S o.ty with
+     | some r => varEvents (opSt S r) o.vars ++ walkDirs S {} (opSt S r) o.dirs ++ enterSetEv (opSt S r) o.sels
+     | none => [mk [] (.report .notConfigured)])
+def opPost (S : VSchema) (o : OpDef) : List Evt :=
+  (match rootOf S o.ty with
+   | some r => exitSetEv (opSt S r) o.sels
+   | none => []) ++ [mk [] (.exitOp o)]
+def opWalk (S : VSchema) (o : OpDef) : List Evt :=
+  match rootOf S o.ty with
+  | some r => walkSels S {} (opSt S r) o.sels
+  | none => []
+
+theorem walkOp_eq (S : VSchema) (o : OpDef) : walkOp S {} o = opPre S o ++ opWalk S o ++ opPost S o := by
+  unfold walkOp opPre opPost opWalk
+  cases rootOf S o.ty <;> simp [walkSet_eq, opSt, varEvents]
+
+namespace Machine
+variable {σ : Type} (M : Machine σ)
+
+theorem run_opWalk (S : VSchema) (out : Stack → Sel → List Model.Validate.Kind)
+    (hpre : ∀ s st sel, M.run s (preEvents S st sel) = out st sel)
+    (hpost : ∀ s st sel, M.run s (postEvents S st sel) = []) (s : σ) (o : OpDef) :
+    M.run s (opWalk S o) = (opVisits S o).flatMap (fun v => out v.1 v.2) := by
+  unfold opWalk opVisits
+  cases rootOf S o.ty with
+  | none => simp
+  | some r => simp only []; exact run_walkSels M S out hpre hpost _ _ _
+
+/-- the whole document: a stateful rule that is state-independent on prefixes and silent on
+    suffixes reports the concatenation of what it reports per fragment, operation and selection -/
+theorem run_events (S : VSchema) (d : Doc) (out : Stack → Sel → List Model.Validate.Kind)
+    (fout : FragDef → List Model.Validate.Kind) (oout : OpDef → List Model.Validate.Kind)
+    (hpre : ∀ s st sel, M.run s (preEvents S st sel) = out st sel)
+    (hpost : ∀ s st sel, M.run s (postEvents S st sel) = [])
+    (hfpre : ∀ s f, M.run s (fragPre S f) = fout f) (hfpost : ∀ s f, M.run s (fragPost S f) = [])
+    (hopre : ∀ s o, M.run s (opPre S o) = oout o) (hopost : ∀ s o, M.run s (opPost S o) = [])
+    (hdoc : ∀ s, (M.step s (Model.Validate.mk [] .enterDoc)).2 = [] ∧ (M.step s (Model.Validate.mk [] .exitDoc)).2 = []) (s : σ) :
+    M.run s (events S {} d) =
+      d.frags.flatMap (fun f => fout f ++ (visitsSels S (fragSt S f) f.sels).flatMap (fun v => out v.1 v.2))
+      ++ d.ops.flatMap (fun o => oout o ++ (opVisits S o).flatMap (fun v => out v.1 v.2)) := by
+  have hf : ∀ s f, M.run s (walkFrag S {} f) = fout f ++ (visitsSels S (fragSt S f) f.sels).flatMap (fun v => out v.1 v.2) := by
+    intro s f
+    rw [walkFrag_eq, run_append, run_append, hfpre, hfpost, run_walkSels M S out hpre hpost]; simp
+  have ho : ∀ s o, M.run s (walkOp S {} o) = oout o ++ (opVisits S o).flatMap (fun v => out v.1 v.2) := by
+    intro s o
+    rw [walkOp_eq, run_append, run_append, hopre, hopost, run_opWalk M S out hpre hpost]; simp
+  simp only [events, run_append, run_cons, run_nil, (hdoc _).1, (hdoc _).2, List.nil_append, List.append_nil,
+    run_flatMap M _ _ hf, run_flatMap M _ _ ho]
+
+end Machine
+
 end AGV.Lemmas.ValidateMachine
